@@ -288,3 +288,117 @@ def r4(ctx, R):
     R.inst("del_cells: refuses derived, deletes, re-derives subs")
     if not q.raises(sd) or not q.calls(sd, name="on_del_cells") or not q.calls(sd, name="update_subs"):
         R.bad(sd, sd.node, "del_cells does not propagate the deletion to sub spaces", stmt="del_cells")
+
+
+LIVE_CONTAINERS = {
+    # attribute -> why it matters
+    "_dynamic_subs": "ItemSpaces built from a space; deleting one removes it from its base's list",
+    "param_spaces": "ItemSpaces of a parent keyed by arguments",
+    "data": "held values of a cells",
+    "input_keys": "keys of assigned values",
+}
+LIVE_EXEMPT = {
+    # function -> reason (read and confirmed; frozen)
+    "DynamicBase.change_dynsub_refs":
+        "the body can delete an ItemSpace only by clearing a node that was computed from the element being processed; "
+        "such a node was evaluated after that element existed, so the removed ItemSpace was appended later and sits "
+        "behind the loop position: nothing is skipped (a list does not raise on size change)",
+}
+_SNAPSHOTS = ("list", "tuple", "sorted", "set", "frozenset", "dict")
+_MUT_METHODS = {"remove", "append", "pop", "clear", "add", "discard", "update", "insert", "extend", "popitem",
+                "setdefault", "del_item", "set_item"}
+
+
+def _live_iter_attr(fi, it):
+    """attribute name when `it` iterates a live container field (no snapshot), else None"""
+    e = q.origin(fi, it)
+    if isinstance(e, ast.Call):
+        if isinstance(e.func, ast.Name) and e.func.id in _SNAPSHOTS:
+            return None
+        if isinstance(e.func, ast.Attribute) and e.func.attr == "copy":
+            return None
+        if isinstance(e.func, ast.Attribute) and e.func.attr in ("keys", "values", "items") and not e.args:
+            e = e.func.value
+        elif isinstance(e.func, ast.Name) and e.func.id in ("iter", "reversed", "enumerate") and e.args:
+            e = q.origin(fi, e.args[0])
+        else:
+            return None
+    if isinstance(e, ast.Attribute) and e.attr in LIVE_CONTAINERS:
+        return e.attr
+    return None
+
+
+def _mutators(ctx):
+    memo = ctx.memo.get("live_mutators")
+    if memo is not None:
+        return memo
+    out = {a: {} for a in LIVE_CONTAINERS}
+    for f in ctx.repo.all_funcs(modules=["modelx.core"]):
+        for n in walk_local(f.node):
+            tgt = None
+            if isinstance(n, ast.Call) and isinstance(n.func, ast.Attribute) and n.func.attr in _MUT_METHODS:
+                tgt = q.origin(f, n.func.value)
+            elif isinstance(n, ast.Subscript) and isinstance(n.ctx, (ast.Store, ast.Del)):
+                tgt = q.origin(f, n.value)
+            if isinstance(tgt, ast.Attribute) and tgt.attr in out:
+                out[tgt.attr].setdefault(f.qual, n)
+    ctx.memo["live_mutators"] = out
+    return out
+
+
+@rule("C13.R5", "C13", "REACH", "no container is iterated live while the loop body can change it", min_instances=3,
+      also=("C02", "C07"))
+def r5(ctx, R):
+    """For every loop or comprehension in modelx.core that iterates one of the member
+    containers (_dynamic_subs, param_spaces, data, input_keys) without taking a snapshot
+    (list()/tuple()/sorted()/.copy()): no function reachable from a call in the loop body
+    adds to or removes from a container of that name.  Deleting an ItemSpace removes it from
+    its base's _dynamic_subs (ItemSpaceImpl.on_delete), clearing a value deletes from data:
+    a live iteration skips every second element, and the skipped ItemSpaces / values survive
+    the edit."""
+    muts = _mutators(ctx)
+    R.slot("mutators", {a: sorted(ctx.repo.funcs[k].short for k in v) for a, v in muts.items()})
+    R.need(muts["_dynamic_subs"] and muts["data"], "mutators of _dynamic_subs / data not found")
+    n_snap = 0
+    for f in ctx.repo.all_funcs(modules=["modelx.core"]):
+        loops = []
+        for n in walk_local(f.node):
+            if isinstance(n, (ast.For, ast.AsyncFor)):
+                loops.append((n.iter, n.body, n))
+        for it, body, loop in loops:
+            e = q.origin(f, it)
+            # count snapshots of the tracked containers (the rule's positive instances)
+            if isinstance(e, ast.Call) and (isinstance(e.func, ast.Name) and e.func.id in _SNAPSHOTS and e.args
+                                            or isinstance(e.func, ast.Attribute) and e.func.attr == "copy"):
+                inner = e.args[0] if isinstance(e.func, ast.Name) else e.func.value
+                inner = q.origin(f, inner)
+                if isinstance(inner, ast.Attribute) and inner.attr in LIVE_CONTAINERS:
+                    n_snap += 1
+                    R.inst("%s iterates a snapshot of %s" % (f.short, inner.attr))
+                continue
+            attr = _live_iter_attr(f, it)
+            if attr is None:
+                continue
+            R.inst("%s iterates %s live: body must not reach a mutator" % (f.short, attr))
+            starts = []
+            for b in body:
+                for c in ast.walk(b):
+                    if isinstance(c, ast.Call):
+                        cs = ctx.cg.site_of(c)
+                        if cs is not None:
+                            starts.extend(t for t, p in cs.targets)
+                        # direct mutation in the body itself
+                        if isinstance(c.func, ast.Attribute) and c.func.attr in _MUT_METHODS:
+                            tg = q.origin(f, c.func.value)
+                            if isinstance(tg, ast.Attribute) and tg.attr == attr:
+                                R.bad(f, loop, "%s is changed inside a loop that iterates it live" % attr)
+            # dynamic dispatch on untyped receivers (node[OBJ].on_clear_trace) is followed by method name
+            reach = ctx.cg.reach(starts, precisions=("exact", "ref", "name"))
+            hit = sorted(k for k in reach if k in muts[attr])
+            if hit and f.short in LIVE_EXEMPT:
+                R.note("%s: live iteration accepted - %s" % (f.short, LIVE_EXEMPT[f.short]))
+            elif hit:
+                R.bad(f, loop, "%s is iterated live, but the loop body reaches %s, which changes a container of that name: "
+                               "elements are skipped (%s)" % (attr, ctx.repo.funcs[hit[0]].short, LIVE_CONTAINERS[attr]),
+                      path=" -> ".join(ctx.cg.path_to(reach, hit[0])))
+    R.need(n_snap >= 2, "expected >=2 snapshot iterations of tracked containers, found %d" % n_snap)
